@@ -125,9 +125,9 @@ Proof.
 Qed.
 
 Theorem sort_hings_perm l1 l2 :
-  Permutation l1 l2 -> NoDup (map (fun i => i_full (h_ing i)) l1) -> sort_hings l1 = sort_hings l2.
+  Permutation l1 l2 -> NoDup (map (fun i => i_full (hi_ing i)) l1) -> sort_hings l1 = sort_hings l2.
 Proof.
-  apply (isort_perm hing_ltb (fun i => i_full (h_ing i))).
+  apply (isort_perm hing_ltb (fun i => i_full (hi_ing i))).
   - intros a. apply ing_ltb_irrefl.
   - intros a b c. apply ing_ltb_trans.
   - intros a b Hn. apply ing_ltb_total. exact Hn.
@@ -682,12 +682,12 @@ Section HostChainProofs.
   Variable prefixes : list string.
 
   Theorem host_redirects_perm ings ings' :
-    Permutation ings ings' -> NoDup (map (fun i => i_full (h_ing i)) ings) ->
+    Permutation ings ings' -> NoDup (map (fun i => i_full (hi_ing i)) ings) ->
     host_redirects vld defaults prefixes ings = host_redirects vld defaults prefixes ings'.
   Proof. intros Hp Hn. unfold host_redirects. rewrite (sort_hings_perm ings ings' Hp Hn). reflexivity. Qed.
 
   Theorem host_app_root_perm ings ings' h :
-    Permutation ings ings' -> NoDup (map (fun i => i_full (h_ing i)) ings) ->
+    Permutation ings ings' -> NoDup (map (fun i => i_full (hi_ing i)) ings) ->
     host_app_root vld defaults prefixes ings h = host_app_root vld defaults prefixes ings' h.
   Proof. intros Hp Hn. unfold host_app_root. rewrite (sort_hings_perm ings ings' Hp Hn). reflexivity. Qed.
 
@@ -922,3 +922,146 @@ Proof.
     - eapply Permutation_in; [apply Permutation_sym; exact Hp|exact Hx]. }
   rewrite He. reflexivity.
 Qed.
+
+(* ================================================================== *)
+(* the annotations phase as a whole (hosts loop, then backends loop)   *)
+(* ================================================================== *)
+(* side condition H: no redirect-from / redirect-from-regex name claimed by two hosts that
+   have paths, and at least as many auth proxy ports as distinct authentication services *)
+Theorem annotations_order_indep_under_H hosts hosts' cap reqs reqs' :
+  Permutation hosts hosts' -> unique_claims hosts ->
+  Permutation reqs reqs' -> List.length (nodup string_dec reqs) <= cap ->
+  (forall regex r, find_target (apply_redirects hosts) r regex = find_target (apply_redirects hosts') r regex) /\
+  (forall t, auth_granted cap reqs t = auth_granted cap reqs' t).
+Proof.
+  intros Hp Hu Hq Hc. split.
+  - apply redirects_order_indep_under_H; assumption.
+  - intros t. apply alloc_order_indep_under_H; assumption.
+Qed.
+
+Theorem annotations_order_refuted :
+  (exists hosts hosts', Permutation hosts hosts' /\ NoDup (map hc_name hosts) /\
+     redirect_of (apply_redirects hosts) "redir.example" <> redirect_of (apply_redirects hosts') "redir.example") /\
+  (exists cap reqs reqs' t, Permutation reqs reqs' /\ auth_granted cap reqs t <> auth_granted cap reqs' t).
+Proof. exact (conj redirects_order_refuted alloc_order_refuted). Qed.
+
+(* ================================================================== *)
+(* the host chain with every map visit free                             *)
+(* ================================================================== *)
+Lemma rck_step_NoDup prefix keys e : NoDup (map fst keys) -> NoDup (map fst (rck_step prefix keys e)).
+Proof.
+  intros Hn. unfold rck_step. destruct (trim_prefix prefix (fst e)) as [key|]; [|exact Hn].
+  destruct (assoc key keys) eqn:Ea; [exact Hn|]. rewrite map_app. cbn [map fst].
+  apply NoDup_app_intro; [exact Hn|constructor; [intros []|constructor]|].
+  intros x Hx [<-|[]]. apply assoc_None_notin in Ea. contradiction.
+Qed.
+
+Lemma pass_NoDup pre l : forall keys, NoDup (map fst keys) -> NoDup (map fst (fold_left (rck_step pre) l keys)).
+Proof.
+  induction l as [|e l IHl]; intros keys Hn; cbn [fold_left]; [exact Hn|].
+  apply IHl. apply rck_step_NoDup. exact Hn.
+Qed.
+
+Lemma read_config_keys_NoDup passes : NoDup (map fst (read_config_keys passes)).
+Proof.
+  unfold read_config_keys.
+  assert (H : forall keys, NoDup (map fst keys) ->
+            NoDup (map fst (fold_left (fun keys pass => fold_left (rck_step (fst pass ++ "/")%string) (snd pass) keys) passes keys))).
+  { induction passes as [|p r IH]; intros keys Hn; cbn [fold_left]; [exact Hn|]. apply IH.
+    apply pass_NoDup. exact Hn. }
+  apply H. constructor.
+Qed.
+
+Lemma In_assoc {A} (l : list (string * A)) k v : NoDup (map fst l) -> (In (k, v) l <-> assoc k l = Some v).
+Proof.
+  induction l as [|[k' v'] r IH]; intros Hn; cbn [In assoc]; [split; [intros []|discriminate]|].
+  inversion Hn as [|? ? Hk Hr]; subst. destruct (String.eqb_spec k k') as [->|Hne].
+  - split.
+    + intros [H|H]; [inversion H; reflexivity|]. exfalso. apply Hk. apply in_map_iff. exists (k', v). split; [reflexivity|exact H].
+    + intros H. inversion H. left. reflexivity.
+  - rewrite <- (IH Hr). split; [intros [H|H]; [inversion H; congruence|exact H]|intros H; right; exact H].
+Qed.
+
+Lemma assoc_eq_perm {A} (l l' : list (string * A)) :
+  NoDup (map fst l) -> NoDup (map fst l') -> (forall k, assoc k l = assoc k l') -> Permutation l l'.
+Proof.
+  intros Hn Hn' He. apply NoDup_Permutation.
+  - eapply NoDup_map_inv. exact Hn.
+  - eapply NoDup_map_inv. exact Hn'.
+  - intros [k v]. rewrite (In_assoc l k v Hn), (In_assoc l' k v Hn'), (He k). tauto.
+Qed.
+
+Lemma call_perm_trans a b c : call_perm a b -> call_perm b c -> call_perm a c.
+Proof.
+  intros (H1 & H2 & H3) (H4 & H5 & H6). repeat split; try congruence. eapply perm_trans; eassumption.
+Qed.
+
+Lemma Forall2_trans {A} (R : A -> A -> Prop) :
+  (forall a b c, R a b -> R b c -> R a c) -> forall l1 l2 l3, Forall2 R l1 l2 -> Forall2 R l2 l3 -> Forall2 R l1 l3.
+Proof.
+  intros Ht l1 l2 l3 H12. revert l3. induction H12 as [|a b r s Hab Hrs IH]; intros l3 H23; inversion H23; subst; constructor.
+  - eapply Ht; eassumption.
+  - apply IH. assumption.
+Qed.
+
+Section HostChainIter.
+  Variable vld : string -> string -> option string.
+  Variable defaults : annots.
+
+  (* the claim of a host, from its mapper *)
+  Definition claim_from (sorted : list hing) (h : string) (m : mlog) : hostclaim :=
+    {| hc_name := h; hc_paths := host_has_paths sorted h;
+       hc_redir := snd (mget defaults m "redirect-from");
+       hc_redir_re := snd (mget defaults m "redirect-from-regex") |}.
+
+  Lemma claim_of_from prefixes sorted h :
+    claim_of vld defaults prefixes sorted h
+    = claim_from sorted h (run_calls vld [] (host_calls (keys_of prefixes) sorted h)).
+  Proof. reflexivity. Qed.
+
+  Lemma host_calls_perm keys keys' sorted h :
+    (forall i, NoDup (map fst (keys i))) -> (forall i, NoDup (map fst (keys' i))) ->
+    (forall i k, assoc k (keys i) = assoc k (keys' i)) ->
+    Forall2 call_perm (host_calls keys sorted h) (host_calls keys' sorted h) /\
+    Forall call_wf (host_calls keys sorted h).
+  Proof.
+    intros Hn Hn' He. unfold host_calls. induction sorted as [|i r [IH1 IH2]]; cbn [flat_map]; [split; constructor|].
+    split.
+    - apply Forall2_app; [|exact IH1]. induction (filter (String.eqb h) (host_decls i)) as [|x l IHl]; cbn [map]; constructor; [|exact IHl].
+      repeat split; cbn [c_src c_path c_ann]. unfold ann_host. apply filter_perm.
+      apply assoc_eq_perm; [apply Hn|apply Hn'|apply He].
+    - apply Forall_app. split; [|exact IH2].
+      induction (filter (String.eqb h) (host_decls i)) as [|x l IHl]; cbn [map]; constructor; [|exact IHl].
+      unfold call_wf. cbn [c_ann]. unfold ann_host. apply NoDup_fst_filter. apply Hn.
+  Qed.
+
+  (* readConfigKeys may visit the annotations in any order in every pass (keys' for keys),
+     and every AddAnnotations call of addHost may visit its map in any order (cs'):
+     the host claims the same redirect-from names *)
+  Theorem host_claim_iter_indep keys keys' sorted h cs' :
+    (forall i, NoDup (map fst (keys i))) -> (forall i, NoDup (map fst (keys' i))) ->
+    (forall i k, assoc k (keys i) = assoc k (keys' i)) ->
+    Forall2 call_perm (host_calls keys' sorted h) cs' ->
+    claim_from sorted h (run_calls vld [] cs') = claim_from sorted h (run_calls vld [] (host_calls keys sorted h)).
+  Proof.
+    intros Hn Hn' He H2. destruct (host_calls_perm keys keys' sorted h Hn Hn' He) as [Hp Hwf].
+    pose proof (Forall2_trans call_perm call_perm_trans _ _ _ Hp H2) as H3.
+    pose proof (run_calls_iter_indep vld _ _ [] [] H3 Hwf (meq_refl [])) as Hm.
+    unfold claim_from. rewrite <- !(meq_mget defaults _ _ _ Hm). reflexivity.
+  Qed.
+
+  (* instance: the keys of two runs of readConfigKeys whose passes visited the map differently *)
+  Theorem host_claim_iter_indep_keys prefixes (visits : hing -> list (string * annots)) sorted h cs' :
+    (forall i, Forall2 pass_perm (map (fun p => (p, hi_raw i)) prefixes) (visits i)) ->
+    (forall i, NoDup (map fst (hi_raw i))) ->
+    Forall2 call_perm (host_calls (fun i => read_config_keys (visits i)) sorted h) cs' ->
+    claim_from sorted h (run_calls vld [] cs') = claim_of vld defaults prefixes sorted h.
+  Proof.
+    intros Hv Hraw H2. rewrite claim_of_from. apply (host_claim_iter_indep (keys_of prefixes) (fun i => read_config_keys (visits i))).
+    - intros i. apply read_config_keys_NoDup.
+    - intros i. apply read_config_keys_NoDup.
+    - intros i k. unfold keys_of. apply read_config_keys_order_indep; [apply Hv|].
+      apply Forall_forall. intros p Hp. apply in_map_iff in Hp as (x & <- & _). exact (Hraw i).
+    - exact H2.
+  Qed.
+End HostChainIter.
